@@ -474,4 +474,41 @@ theorem rt_Q (O : Oracle) : ∀ (q : Qy) (its : List Q) (rest : B) (g : Nat) (ac
     simp
 end
 
+/-- **`Parse` on a rendered query** is `abstractParse`: the parser's own post-processing (`finishList`,
+    `parseOperators`, `stripCaseScopes`, `Simplify`) applied to the items the grammar tree stands for -/
+theorem parse_render (O : Oracle) (g : Qy) (q : Q) (hg : GoodQ g) (h : abstractParse O g = .ok q) :
+    parse O (renderQ g) = .ok q := by
+  unfold abstractParse abstractTree at h
+  obtain ⟨t, ht, hsimp⟩ := bind_eq_ok h
+  obtain ⟨its, hits, h2⟩ := bind_eq_ok ht
+  obtain ⟨qs, hqs, h3⟩ := bind_eq_ok h2
+  obtain ⟨r, hr, h4⟩ := bind_eq_ok h3
+  cases h4
+  have hn := nQ_le g hg
+  have hloop : pelLoop O (3 * (renderQ g).length + 2) (renderQ g) [] = .ok (its, []) := by
+    have hf : 3 * (renderQ g).length + 2 = (3 * (renderQ g).length + 2 - nQ g) + nQ g := by omega
+    have := rt_Q O g its [] (3 * (renderQ g).length + 2 - nQ g) [] hg rfl hits (by simp; omega)
+    simp only [List.append_nil, List.nil_append] at this
+    rw [hf, this]
+    have hp : 3 * (renderQ g).length + 2 - nQ g = (3 * (renderQ g).length + 1 - nQ g) + 1 := by omega
+    rw [hp]
+    exact pelLoop_nil O _ its
+  unfold parse
+  have hpel : parseExprList O (parseFuel (renderQ g)) (renderQ g) = .ok (qs, (renderQ g).length) := by
+    unfold parseFuel parseExprList
+    rw [hloop]
+    simp only [C07.bind_ok, hqs]
+    simp [subLen, C07.bind_ok]
+  rw [hpel]
+  simp only [C07.bind_ok, ne_eq, not_true_eq_false, if_false, hr]
+  exact hsimp
+
+/-- a group written with a blank after its opening parenthesis is read as a group -/
+theorem opens_of_padL (pr : Bool) (q : Qy) (rest : B) :
+    nextToken (renderE (.grp true pr q) ++ rest) = .ok (some parenOpenTok) := by
+  have : renderE (.grp true pr q) ++ rest = 40 :: 32 :: (renderQ q ++ (if pr then [32] else []) ++ [41] ++ rest) := by
+    simp [renderE]
+  rw [this]
+  exact token_open_pad _
+
 end ZoektModel.C06
